@@ -659,9 +659,14 @@ impl<'a> Engine<'a> {
                 }
                 *allowed.entry(Denom::Mel).or_default() += BigUint::from(tx.fee.0);
             }
-            for o in &tx.outputs {
-                if o.denom == Denom::NewCustom {
-                    *allowed.entry(Denom::Custom(h)).or_default() += BigUint::from(o.value.0);
+            // "a transaction's own newly created custom token": the token must not have existed before this batch
+            // (a transaction that could be applied twice would otherwise issue its token twice)
+            let existed = sb.get(&Denom::Custom(h)).map(|v| *v > BigUint::from(0u8)).unwrap_or(false);
+            if tx.kind != TxKind::Faucet && !existed {
+                for o in &tx.outputs {
+                    if o.denom == Denom::NewCustom {
+                        *allowed.entry(Denom::Custom(h)).or_default() += BigUint::from(o.value.0);
+                    }
                 }
             }
             if tx.kind == TxKind::DoscMint {
